@@ -166,15 +166,15 @@ Proof.
 Qed.
 
 (* through renderobjinfo: whatever the selectors, hosts, ports, names and MIME types *)
-Theorem skeleton_http_renderobjinfo icons sn e1 e2 r1 r2 :
+Theorem skeleton_http_renderobjinfo icons sn dp e1 e2 r1 r2 :
   icons_ok icons = true ->
   type_is e1 T_INFO = type_is e2 T_INFO -> type_is e1 T_SEARCH = type_is e2 T_SEARCH ->
-  http_renderobjinfo icons sn e1 = Some r1 -> http_renderobjinfo icons sn e2 = Some r2 ->
+  http_renderobjinfo icons sn dp e1 = Some r1 -> http_renderobjinfo icons sn dp e2 = Some r2 ->
   skeleton r1 = skeleton r2.
 Proof.
   intros OK TI TS. unfold http_renderobjinfo, http_renderobjinfo_gen.
-  destruct (link_url FHttp sn e1) as [u1|]; [|discriminate].
-  destruct (link_url FHttp sn e2) as [u2|]; [|discriminate].
+  destruct (link_url FHttp sn dp e1) as [u1|]; [|discriminate].
+  destruct (link_url FHttp sn dp e2) as [u2|]; [|discriminate].
   simpl. intros [= <-] [= <-]. now apply skeleton_http_row.
 Qed.
 
@@ -184,11 +184,11 @@ Definition pin_e (sel : str) : entry :=
 Theorem url_href_refuted :
   exists e1 e2 r1 r2 w1 w2,
     type_is e1 T_INFO = type_is e2 T_INFO /\ type_is e1 T_SEARCH = type_is e2 T_SEARCH /\
-    http_renderobjinfo_pinned [] (lit "gopher.example") e1 = Some r1 /\
-    http_renderobjinfo_pinned [] (lit "gopher.example") e2 = Some r2 /\
+    http_renderobjinfo_pinned [] (lit "gopher.example") 70%Z e1 = Some r1 /\
+    http_renderobjinfo_pinned [] (lit "gopher.example") 70%Z e2 = Some r2 /\
     skeleton r1 <> skeleton r2 /\
-    wap_renderobjinfo_gen false (lit "/wap") (lit "gopher.example") WAP0 e1 = Some w1 /\
-    wap_renderobjinfo_gen false (lit "/wap") (lit "gopher.example") WAP0 e2 = Some w2 /\
+    wap_renderobjinfo_gen false (lit "/wap") (lit "gopher.example") 70%Z WAP0 e1 = Some w1 /\
+    wap_renderobjinfo_gen false (lit "/wap") (lit "gopher.example") 70%Z WAP0 e2 = Some w2 /\
     skeleton (fst w1) <> skeleton (fst w2).
 Proof.
   exists (pin_e (lit "URL:http://x/""><script>")), (pin_e (lit "URL:http://x/")).
